@@ -20,6 +20,7 @@ package main
 
 import (
 	"fmt"
+	"math"
 	"math/rand"
 	"net"
 	"sort"
@@ -157,7 +158,10 @@ func (r *rwConn) write(b []byte) error {
 
 // barrier: a ping answered by the connection's reader goroutine through the same FIFO send
 // channel: every frame enqueued before the ping was read has been received when it returns.
-// Only usable while the connection is active (a ping on a closing connection is a protocol error).
+// Used only while the connection is active: the scripted cases send no pings to a closing
+// connection (a draining connection answers them since the repair of handlePingReq, a closed
+// one does not; pings during the drain are C07's subject and have no label in Model/RespWire.v),
+// they wait for the wire to be quiet instead (settle).
 func (r *rwConn) barrier() bool {
 	r.wmu.Lock()
 	r.nextPing++
@@ -318,7 +322,26 @@ const (
 	opWaitDone
 	opCtx
 	opEnd
+	opHelperOK   // arguments.go NewArgWriter(w, nil).Write(bytes): f() = Write succeeds, the helper closes the writer
+	opHelperFail // NewArgWriter(w, nil).WriteJSON(a value that cannot be encoded): f() fails above the transport
 )
+
+// values json.Encoder refuses before writing a byte
+type rwBadMarshaler struct{}
+
+func (rwBadMarshaler) MarshalJSON() ([]byte, error) {
+	return nil, fmt.Errorf("refuses to be marshalled")
+}
+
+func rwUnencodable(k int) interface{} {
+	switch k % 3 {
+	case 0:
+		return map[string]float64{"ratio": math.NaN()}
+	case 1:
+		return rwBadMarshaler{}
+	}
+	return map[string]interface{}{"c": make(chan int)}
+}
 
 type hcmd struct {
 	op, k int
@@ -396,6 +419,10 @@ func scriptedHandler(ctx context.Context, call *tchannel.InboundCall) {
 				r.err = w.Flush() != nil
 			case opClose:
 				r.err = w.Close() != nil
+			case opHelperOK:
+				r.err = tchannel.NewArgWriter(w, nil).Write([]byte("helper-written")) != nil
+			case opHelperFail:
+				r.err = tchannel.NewArgWriter(w, nil).WriteJSON(rwUnencodable(cmd.k)) != nil
 			case opSysErr:
 				r.err = resp.SendSystemError(tchannel.ErrServerBusy) != nil
 			case opAppErr:
@@ -435,6 +462,7 @@ type mcall struct {
 	shortTTL                       bool
 	rets                           []int64
 	requests                       int
+	sysErrNil                      bool // a SendSystemError of this call returned nil (its frame was queued)
 }
 
 type mcase struct {
@@ -452,6 +480,7 @@ type mcase struct {
 	cut          bool
 	infeasible   string
 	hist         []string
+	verdicts     []string // statement-level findings made while the script runs
 }
 
 func (m *mcase) lab(op int, a, b int64) {
@@ -589,7 +618,7 @@ func (m *mcase) stepCall(c *mcall) {
 	c.pc++
 	id := int64(c.id)
 	// once an API call has failed only calls with a result-independent translation are made
-	writerOp := cmd.op == opWrite || cmd.op == opBigWrite || cmd.op == opFlush || cmd.op == opClose
+	writerOp := cmd.op == opWrite || cmd.op == opBigWrite || cmd.op == opFlush || cmd.op == opClose || cmd.op == opHelperOK || cmd.op == opHelperFail
 	if writerOp && (c.errSeen || !c.open) {
 		return
 	}
@@ -638,13 +667,27 @@ func (m *mcase) stepCall(c *mcall) {
 			m.lab(15, id, 1)
 			m.lab(16, id, 0)
 		}
-	case opClose:
+	case opHelperFail:
+		// ArgWriteHelper.write whose f() fails above the transport (the value cannot be encoded):
+		// HHelperWrite id false -- the model records the error and touches nothing; the writer
+		// stays open, the response has not failed (a system error that follows must be sent)
 		r, ok := m.do(c, cmd)
 		if !ok {
 			return
 		}
 		c.rets = append(c.rets, b2i(r.err))
-		m.lab(17, id, 0)
+		m.lab(22, id, 0)
+	case opClose, opHelperOK:
+		r, ok := m.do(c, cmd)
+		if !ok {
+			return
+		}
+		c.rets = append(c.rets, b2i(r.err))
+		if cmd.op == opHelperOK {
+			m.lab(22, id, 1) // HHelperWrite id true: the helper's Close
+		} else {
+			m.lab(17, id, 0)
+		}
 		c.open = false
 		if c.wk == 3 {
 			if !r.err {
@@ -660,12 +703,29 @@ func (m *mcase) stepCall(c *mcall) {
 			m.markShutdown(c)
 		}
 	case opSysErr:
+		// C10_syserr_step (from the statement: a handler's error is what the caller gets instead
+		// of the response): no connection failure so far, the call was dispatched, its exchange is
+		// still registered and its response has not failed -- then SendSystemError must queue the
+		// error frame and return nil, whether the connection is active or draining after Close,
+		// also when this call is the last one being drained (the send buffer is never full here)
+		mustSend := !m.cut && !m.protoStopped && !c.errSeen && !c.done && !c.expired && !c.shortTTL &&
+			m.conn != nil && tchannel.VerifInboundHas(m.conn, c.id)
+		stBefore, _, inbBefore := m.info()
 		r, ok := m.do(c, cmd)
 		if !ok {
 			return
 		}
 		c.rets = append(c.rets, b2i(r.err))
 		m.lab(19, id, 0)
+		if mustSend {
+			m.hist = append(m.hist, fmt.Sprintf("syserr-in-flight:conn-state=%d last-exchange=%v", stBefore, inbBefore == 1))
+			if r.err {
+				m.verdicts = append(m.verdicts, fmt.Sprintf("id %d: SendSystemError of a dispatched call whose exchange was still registered (connection state %d, %d inbound exchanges, no connection failure) was refused: the caller does not get the handler's error", c.id, stBefore, inbBefore))
+			}
+		}
+		if !r.err {
+			c.sysErrNil = true
+		}
 		if c.done && !c.errSeen {
 			c.misuse = true
 		}
@@ -803,6 +863,9 @@ func completePlan(rng *rand.Rand, nf2, nf3 int) []hcmd {
 
 // genPlan returns the handler script, whether the call needs a short ttl, and its class.
 func genPlan(rng *rand.Rand) ([]hcmd, bool, string) {
+	if rng.Intn(6) == 0 {
+		return helperPlan(rng)
+	}
 	full := completePlan(rng, pick(rng, 0, 0, 1, 2), pick(rng, 0, 0, 1, 3))
 	switch rng.Intn(12) {
 	case 0, 1, 2:
@@ -852,6 +915,43 @@ func genPlan(rng *rand.Rand) ([]hcmd, bool, string) {
 	}
 }
 
+// helperPlan: handlers written with the arg helpers (arguments.go NewArgWriter(..).Write / WriteJSON),
+// the way an ErrorHandlerFunc is: the first error ends the handler and is answered with ONE system
+// error.  The failing encode hits arg2 or arg3, with 0..2 fragments of the argument flushed before.
+func helperPlan(rng *rand.Rand) ([]hcmd, bool, string) {
+	p := []hcmd{{op: opResp}, {op: opArgW, k: 1}, {op: opClose}, {op: opArgW, k: 2}}
+	pre := func(n int) {
+		for i := 0; i < n; i++ {
+			p = append(p, hcmd{op: opWrite}, hcmd{op: opFlush})
+		}
+	}
+	fail := hcmd{op: opHelperFail, k: rng.Intn(3)}
+	switch rng.Intn(7) {
+	case 0:
+		pre(pick(rng, 0, 0, 1))
+		p = append(p, hcmd{op: opHelperOK}, hcmd{op: opArgW, k: 3})
+		pre(pick(rng, 0, 0, 1, 2))
+		return append(p, hcmd{op: opHelperOK}), false, "helper:complete"
+	case 1:
+		pre(pick(rng, 0, 0, 1))
+		return append(p, fail, hcmd{op: opSysErr}), false, "helper:arg2-encode-fails+syserr"
+	case 2: // the application retries with a fallback body on the writer it still holds
+		p = append(p, hcmd{op: opHelperOK}, hcmd{op: opArgW, k: 3})
+		pre(pick(rng, 0, 1))
+		return append(p, fail, hcmd{op: opHelperOK}), false, "helper:arg3-encode-fails+fallback-body"
+	case 3: // a layer that only logs the error (json.Register): nothing more is sent
+		p = append(p, hcmd{op: opHelperOK}, hcmd{op: opArgW, k: 3})
+		return append(p, fail), false, "helper:arg3-encode-fails+silent"
+	case 4: // the deadline passes, then the helper's Close fails, the handler answers with a system error (refused)
+		p = append(p, hcmd{op: opHelperOK}, hcmd{op: opArgW, k: 3}, hcmd{op: opWaitDone}, hcmd{op: opHelperOK}, hcmd{op: opSysErr})
+		return p, true, "helper:deadline-then-close-fails+syserr"
+	default:
+		p = append(p, hcmd{op: opHelperOK}, hcmd{op: opArgW, k: 3})
+		pre(pick(rng, 0, 0, 1, 2))
+		return append(p, fail, hcmd{op: opSysErr}), false, "helper:arg3-encode-fails+syserr"
+	}
+}
+
 func (m *mcase) stoppedByProto() bool { return m.protoStopped }
 
 // runModelCase runs one scripted connection and returns (input, observation, verdict, classes).
@@ -879,10 +979,28 @@ func runModelCase(rng *rand.Rand, servers [2]*tchannel.Channel, caseNo int) (in,
 	if rng.Intn(3) == 0 {
 		cancelAt = 3 + rng.Intn(12)
 	}
+	var forcePlan []hcmd
+	if caseNo%8 == 5 {
+		// forced in every 8th case: the system error of the LAST call being drained.  One call,
+		// Close while its handler is running (after 0..n response fragments), then
+		// SendSystemError: removing the exchange closes the connection, the error frame must
+		// have been queued before (inbound.go SendSystemError as repaired)
+		ncalls, event, cancelAt = 1, 1, -1
+		full := completePlan(rng, pick(rng, 0, 0, 1, 2), pick(rng, 0, 1, 2))
+		cutAt := pick(rng, 1, 1, 4+rng.Intn(len(full)-4))
+		forcePlan = append(append([]hcmd{}, full[:cutAt]...), hcmd{op: opSysErr})
+		eventAt = 1 + rng.Intn(len(forcePlan)-1)
+	}
 	started := 0
 	nextID := baseID
 	newCall := func() {
 		plan, short, class := genPlan(rng)
+		if forcePlan != nil {
+			plan, short, class = forcePlan, false, "forced:syserr-of-last-drained-call"
+		} else if caseNo%8 == 1 && started == 0 {
+			// forced in every 8th case: a handler written with the arg helpers
+			plan, short, class = helperPlan(rng)
+		}
 		classes = append(classes, class)
 		ttl := uint32(60000)
 		if short {
@@ -897,6 +1015,9 @@ func runModelCase(rng *rand.Rand, servers [2]*tchannel.Channel, caseNo int) (in,
 	raceAt := -1
 	if rng.Intn(8) == 0 {
 		raceAt = 1 + rng.Intn(10)
+	}
+	if forcePlan != nil {
+		raceAt = -1
 	}
 	if caseNo%8 == 3 {
 		// the close-vs-admission window is forced in every 8th case, early enough that the
@@ -1084,9 +1205,22 @@ func runModelCase(rng *rand.Rand, servers [2]*tchannel.Channel, caseNo int) (in,
 		if m.reqCount[id] == 1 && (c == nil || !c.misuse) {
 			if v := wireVerdict(id, fs, false); v != "" {
 				verdicts = append(verdicts, v)
+			} else if c != nil && c.sysErrNil && !m.cut {
+				// C10_syserr_delivered: the handler's SendSystemError returned nil and the peer
+				// did not cut the connection: exactly one error frame, and it ends the id's frames
+				nerr := 0
+				for _, f := range fs {
+					if f.typ == 0xff {
+						nerr++
+					}
+				}
+				if nerr != 1 || fs[len(fs)-1].typ != 0xff {
+					verdicts = append(verdicts, fmt.Sprintf("id %d: SendSystemError returned nil but the caller received %v: not exactly one error frame at the end", id, fs))
+				}
 			}
 		}
 	}
+	verdicts = append(verdicts, m.verdicts...)
 	for _, id := range rw.ids() {
 		if m.reqCount[id] == 0 && id != 0xffffffff {
 			verdicts = append(verdicts, fmt.Sprintf("frames %v for id %d which was never requested", rw.snapshot(id), id))
